@@ -593,35 +593,33 @@ func (P *Prog) unknownErrorAdoptsDtype() (bool, string) {
 	}
 	dtypeF := structField(R.ZogIssue, "Dtype")
 	ok := false
-	eachInstr(fn, func(_ *ssa.BasicBlock, _ int, in ssa.Instruction) {
-		st, isSt := in.(*ssa.Store)
-		if !isSt {
-			return
-		}
-		base, f := fieldVar(st.Addr)
-		if f == nil || !sameField(f, dtypeF) {
-			return
-		}
-		// base must be the asserted issue; value must be the context's DType
-		if _, isTA := cvi(base).(*ssa.Parameter); !isTA {
-			// cvi strips the type assertion: the asserted value is the err parameter
-			return
-		}
-		if _, vf := loadOfField(cv(st.Val)); vf != nil && sameField(vf, R.FDType) {
-			ok = true
-		}
-	})
-	// also accept a call of SetDType(c.DType) on the asserted issue
-	eachInstr(fn, func(_ *ssa.BasicBlock, _ int, in ssa.Instruction) {
-		ci := callOf(in)
-		if ci != nil && ci.static != nil && ci.static.Name() == "SetDType" && len(ci.args()) == 2 {
-			if _, isP := cvi(ci.args()[0]).(*ssa.Parameter); isP {
-				if _, vf := loadOfField(cv(ci.args()[1])); vf != nil && sameField(vf, R.FDType) {
-					ok = true
+	errP := ssa.Value(fn.Params[len(fn.Params)-1])
+	// in the function itself or in a helper it hands the asserted issue to (`adoptIssue(known)`), each read under its
+	// call-site bindings: a store of the context's DType into the Dtype of the issue that *is* the error parameter
+	for _, u := range P.allUnits(fn) {
+		u := u
+		u.with(func() {
+			eachInstr(u.fn, func(_ *ssa.BasicBlock, _ int, in ssa.Instruction) {
+				if st, isSt := in.(*ssa.Store); isSt {
+					base, f := fieldVar(st.Addr)
+					if f == nil || !sameField(f, dtypeF) || cvi(base) != errP {
+						return
+					}
+					if _, vf := loadOfField(cv(st.Val)); vf != nil && sameField(vf, R.FDType) {
+						ok = true
+					}
+					return
 				}
-			}
-		}
-	})
+				// also accept a call of SetDType(c.DType) on the asserted issue
+				ci := callOf(in)
+				if ci != nil && ci.static != nil && ci.static.Name() == "SetDType" && len(ci.args()) == 2 && cvi(ci.args()[0]) == errP {
+					if _, vf := loadOfField(cv(ci.args()[1])); vf != nil && sameField(vf, R.FDType) {
+						ok = true
+					}
+				}
+			})
+		})
+	}
 	if ok {
 		return true, "a *ZogIssue passed as error gets its Dtype from the node's context"
 	}
